@@ -439,8 +439,10 @@ impl<'a, T: ColumnProvider> ExpressionExecutionEngine<'a, T> {
                     Function::MakeTimestamp if arguments.len() == 7 || arguments.len() == 8 => {
                         match (&executed_arguments[0], &executed_arguments[1], &executed_arguments[2], &executed_arguments[3], &executed_arguments[4], &executed_arguments[5], &executed_arguments[6]) {
                             (Value::Int(year), Value::Int(month), Value::Int(day), Value::Int(hour), Value::Int(minute), Value::Int(second), Value::Int(microsecond)) => {
+                                // A part that does not fit its type is an invalid part (=> NULL), it never wraps around
+                                let part = |value: &i64| u32::try_from(*value).unwrap_or(u32::MAX);
                                 Ok(
-                                    create_timestamp(*year as i32, *month as u32, *day as u32, *hour as u32, *minute as u32, *second as u32, *microsecond as u32)
+                                    create_timestamp(i32::try_from(*year).unwrap_or(i32::MAX), part(month), part(day), part(hour), part(minute), part(second), part(microsecond))
                                         .map(|timestamp| Value::Timestamp(timestamp))
                                         .unwrap_or(Value::Null)
                                 )
